@@ -13,6 +13,7 @@
 EXTENDS Integers, FiniteSets, Sequences, TLC
 
 CONSTANTS NTasks, MaxT, MD, MaxCalls, DueCheck, AtomicHandlers,
+          RepIv,          \* interval of Task.Repeat calls in clock ticks (0: no Repeat calls are explored)
           ResetUnderLock, \* executeAt is cleared together with the start decision, under the task lock (TRUE = repaired
                           \* tree; FALSE = pinned tree: cleared by the launched goroutine without the lock, finding F-C07-4)
           Fault   \* "none", or a plausible regression whose counterexamples become adversarial scripts:
@@ -42,7 +43,8 @@ Init ==
            early |-> FALSE, overlap |-> FALSE, lost |-> FALSE, startedCanceled |-> FALSE, earlyOT |-> FALSE,
            armed |-> -1,                  \* time the schedule handler's timer is armed for (-1: waits for a notification)
            notif |-> FALSE,               \* notifyTaskScheduler (addToSchedule notifies, removeFromQueues does not)
-           ctxc |-> AllF(FALSE) ]         \* the task context is cancelled (refreshed after every run)
+           ctxc |-> AllF(FALSE),          \* the task context is cancelled (refreshed after every run)
+           rep |-> AllF(0) ]              \* Task.repeat: interval after which a finished run is scheduled again (0: none)
   /\ last = Lbl("init", 0, "-", 0)
 
 Remove(q, t) == SelectSeq(q, LAMBDA x : x # t)
@@ -87,12 +89,27 @@ ApiCancel(t) ==
                       !.subKind[t] = "none", !.ctxc[t] = TRUE]
     /\ last' = Lbl("api", t, "cancel", 0)
 
+\* Repeat(interval): remembers the interval and schedules the first execution after it.  (addToSchedule does nothing for a
+\* cancelled task; cancelled tasks are not explored here.)
+ApiRepeat(t) ==
+    /\ RepIv > 0 /\ s.calls < MaxCalls /\ ~s.canceled[t]
+    /\ LET ea == [s.execAt EXCEPT ![t] = s.now + RepIv] IN
+       s' = [s EXCEPT !.calls = @ + 1, !.rep[t] = RepIv, !.execAt = ea, !.sched = Ins(Remove(s.sched, t), t, ea), !.se[t] = TRUE,
+                      !.notif = TRUE, !.subKind[t] = IF s.subKind[t] = "queued" THEN "queued" ELSE "sched",
+                      !.schedAt[t] = s.now + RepIv, !.subAfter[t] = s.running[t]]
+    /\ last' = Lbl("api", t, "repeat", RepIv)
+\* Repeat(0): "will disable repeating, but won't change the current schedule"
+ApiRepeatOff(t) ==
+    /\ RepIv > 0 /\ s.calls < MaxCalls /\ s.rep[t] # 0
+    /\ s' = [s EXCEPT !.calls = @ + 1, !.rep[t] = 0]
+    /\ last' = Lbl("api", t, "repeatoff", 0)
+
 \* Schedule(zero time): removes the task from all lists (no notification of the schedule handler)
 ApiUnschedule(t) ==
     /\ s.calls < MaxCalls /\ s.se[t]
     /\ s' = [s EXCEPT !.calls = @ + 1,
                       !.queue = IF s.qe[t] THEN Remove(@, t) ELSE @, !.prio = IF s.pe[t] THEN Remove(@, t) ELSE @,
-                      !.sched = Remove(@, t), !.overtime[t] = FALSE,
+                      !.sched = Remove(@, t), !.overtime[t] = FALSE, !.execAt[t] = 0,
                       !.qe[t] = FALSE, !.pe[t] = FALSE, !.se[t] = FALSE, !.subKind[t] = "none"]
     /\ last' = Lbl("api", t, "unschedule", 0)
 
@@ -169,12 +186,19 @@ SRwl == /\ s.sh = "rwl"
 SLaunch == /\ s.sh = "launch" /\ s' = [Launch(s, s.st) EXCEPT !.sh = "arm"] /\ last' = Lbl("sh", s.st, "launch", 0)
 
 \* ------------------------------------------------------------------ the task function returns (deferred part of executeWithLocking)
+\* "repeat?": a repeating task whose execution time is still cleared (nobody scheduled or queued it since the start was
+\* decided) is scheduled again, one interval from now
 End(t) == /\ s.running[t]
-          /\ s' = [s EXCEPT !.running[t] = FALSE, !.executing[t] = FALSE, !.slot[t] = FALSE, !.ctxc[t] = FALSE]
+          /\ LET r1 == [s EXCEPT !.running[t] = FALSE, !.executing[t] = FALSE, !.slot[t] = FALSE, !.ctxc[t] = FALSE]
+                 ea == [s.execAt EXCEPT ![t] = s.now + s.rep[t]]
+             IN s' = IF ~s.canceled[t] /\ s.rep[t] # 0 /\ s.execAt[t] = 0
+                     THEN [r1 EXCEPT !.execAt = ea, !.sched = Ins(Remove(s.sched, t), t, ea), !.se[t] = TRUE, !.notif = TRUE,
+                                     !.subKind[t] = "sched", !.schedAt[t] = s.now + s.rep[t], !.subAfter[t] = FALSE]
+                     ELSE r1
           /\ last' = Lbl("end", t, "-", 0)
 
 Env == \/ Tick \/ QWake \/ QLaunch \/ SLaunch \/ SArm \/ SNotified
-       \/ \E t \in Tasks : End(t) \/ ApiCancel(t) \/ ApiUnschedule(t)
+       \/ \E t \in Tasks : End(t) \/ ApiCancel(t) \/ ApiUnschedule(t) \/ ApiRepeat(t) \/ ApiRepeatOff(t)
        \/ \E t \in Tasks, k \in {"queue", "prio", "asap"} : ApiSubmit(t, k)
        \/ \E t \in Tasks, at \in 1..MaxT : ApiSchedule(t, at)
 UrgentQ == s.qh = "rwl"
